@@ -711,12 +711,12 @@ DISTINCT_TEMPLATES = {
                                                                     'TIME := T#1s', 'TIME := T#2s', 'TIME := T#1ms', 'TIME := T#1m', 'TIME := T#1h', 'TIME := T#1d', 'TIME := T#-1s', 'DATE := D#2020-01-01', 'DATE := D#2020-01-02', 'DATE := D#2020-02-01', 'DATE := D#2021-01-01',
                                                                     'TOD := TOD#01:02:03', 'TOD := TOD#01:02:04', 'TOD := TOD#01:03:03', 'TOD := TOD#02:02:03', 'DT := DT#2020-01-01-01:02:03', 'DT := DT#2020-01-02-01:02:03', "STRING := 'a'", "STRING := 'b'", "STRING := 'ab'", 'WSTRING := "a"',
                                                                     'BYTE := BYTE#1', 'WORD := WORD#1', 'BYTE := BYTE#16#FF']), ';\nEND_VAR\nEND_FUNCTION_BLOCK\n'],
-    'located_and_access': ['PROGRAM p\nVAR', ('alt', ['', ' CONSTANT', ' RETAIN', ' NON_RETAIN']), '\n  x ', ('alt', ['AT %IX1', 'AT %IX2', 'AT %QX1', 'AT %MX1', 'AT %IW1', 'AT %IB1', 'AT %ID1', 'AT %IL1', 'AT %IX1.2', 'AT %IX1.3', 'AT %I1']), ' : BOOL;\nEND_VAR\n',
+    'located_and_access': ['PROGRAM p\nVAR', ('alt', ['', ' CONSTANT', ' RETAIN', ' NON_RETAIN']), '\n  x ', ('alt', ['AT %IX1', 'AT %IX2', 'AT %QX1', 'AT %MX1', 'AT %IW1', 'AT %IB1', 'AT %ID1', 'AT %IL1', 'AT %IX1.2', 'AT %IX1.3', 'AT %I1']), ' : ', ('alt', ['BOOL', 'INT', 'mytype', 'othertype']), ('alt', ['', ' := 1', ' := 2']), ';\nEND_VAR\n',
                            ('opt', 'VAR_ACCESS\n  ac : r.p.x : INT READ_WRITE;\nEND_VAR\n'), ('opt', 'VAR_ACCESS\n  ac : r.p.x : INT READ_ONLY;\nEND_VAR\n'), 'END_PROGRAM\n'],
     'array_initial_values': ['FUNCTION_BLOCK fb\nVAR\n  v : ARRAY[1..4] OF INT := [', ('alt', ['1, 2', '2, 1', '2(0)', '3(0)', '2(1)', '1, 2(0)', '2(0), 1', '1', '1, 2, 3']), '];\nEND_VAR\nEND_FUNCTION_BLOCK\n'],
     'structure_initialisers': ['FUNCTION_BLOCK fb\nVAR\n  v : sty := (', ('alt', ['a := 1', 'a := 2', 'b := 1', 'a := 1, b := 2', 'a := 1, b := 3', 'a := (c := 1)', 'a := (c := 2)', 'a := red', 'a := TRUE']), ');\nEND_VAR\nEND_FUNCTION_BLOCK\n'],
     'enumeration_values': ['TYPE\n  c : (red, green);\nEND_TYPE\nFUNCTION_BLOCK fb\nVAR\n  v : c := ', ('alt', ['red', 'green', 'c#red', 'c#green', 'd#red']), ';\n  w : (', ('alt', ['p, q', 'q, p', 'p', 'p, q, r']), ')', ('alt', ['', ' := p']), ';\nEND_VAR\nEND_FUNCTION_BLOCK\n'],
-    'sfc_transitions': ['FUNCTION_BLOCK fb\nVAR\n  done : BOOL;\nEND_VAR\nINITIAL_STEP Start:\nEND_STEP\nSTEP Work:\nEND_STEP\nSTEP Done:\nEND_STEP\nTRANSITION ', ('alt', ['FROM Start TO Work', 'FROM Work TO Start', 'FROM (Start, Work) TO Done', 'FROM (Work, Start) TO Done', 'FROM Start TO (Work, Done)',
+    'sfc_transitions': ['FUNCTION_BLOCK fb\nVAR\n  done : BOOL;\nEND_VAR\nINITIAL_STEP Start:\nEND_STEP\nSTEP Work:\nEND_STEP\nSTEP Done:\nEND_STEP\nTRANSITION ', ('alt', ['FROM Start TO Work', 'FROM Work TO Start', 'FROM (Start, Work) TO Done', 'FROM (Work, Start) TO Done', 'FROM Start TO (Work, Done)', 'FROM (Start, Work, Done) TO Start', 'FROM (Start, Work, Done, Start) TO Start', 'FROM Done TO (Start, Work, Done)', 'FROM Done TO (Start, Work, Done, Work)',
                          'tr1 FROM Start TO Work', 'tr2 FROM Start TO Work', '(PRIORITY := 1) FROM Start TO Work', '(PRIORITY := 2) FROM Start TO Work', 'tr1 (PRIORITY := 1) FROM Start TO Work']), '\n  := ', ('alt', ['done', 'NOT done', 'TRUE']), ';\nEND_TRANSITION\nEND_FUNCTION_BLOCK\n'],
     'case_selectors': ['FUNCTION_BLOCK fb\nVAR\n  x : INT;\n  y : INT;\nEND_VAR\n  CASE x OF\n    ', ('alt', ['1', '2', '1, 2', '2, 1', '1..2', '1..3', '2..3', '1, 3..5', '1..2, 5', '-1', '-1..1']), ':\n      y := 1;\n', ('alt', ['', '    7:\n      y := 2;\n', '    7:\n      y := 3;\n', '    8:\n      y := 2;\n']), ('alt', ['', '  ELSE\n    y := 4;\n', '  ELSE\n    y := 5;\n']), '  END_CASE;\nEND_FUNCTION_BLOCK\n'],
     'access_and_program_storage': ['PROGRAM p\nVAR\n  t : INT;\nEND_VAR\nVAR_ACCESS\n  ', ('alt', ['ac : r.p.x : INT READ_WRITE', 'ac : r.p.x : INT READ_ONLY', 'ac : r.p.x : INT', 'ad : r.p.x : INT READ_WRITE', 'ac : r.p.y : INT READ_WRITE', 'ac : r.q.x : INT READ_WRITE', 'ac : r.p.x : DINT READ_WRITE']), ';\nEND_VAR\n  t := 1;\nEND_PROGRAM\n'],
